@@ -6,7 +6,7 @@ PROP_MODULE = "NeverModel.Props.C09"
 
 def check(tier, seed):
     rep = Report("C09", tier, seed, "proof")
-    ok = proof_stage(rep, PROP_MODULE)
+    ok = proof_stage(rep, PROP_MODULE, required=["Never.C09.inv_history", "Never.C09.collect_exact", "Never.C09.free_inv_basics", "Never.C09.vm_step_keeps_bookkeeping", "Never.C09.vm_heap_bookkeeping_invariant", "Never.C09.vm_reads_hit_allocated", "Never.C09.vm_touch_allocated_partial"])
     res = gc_corr.run_correspondence(rep, tier, seed)
     # the collector as the VM uses it: an allocation-heavy program with bounded live data at EVERY heap size of a window, in lockstep
     # on the Lean VM over M-Heap (same free-list order => same cell numbers): the heap runs out / the 80 %% trigger fires at every
